@@ -44,3 +44,81 @@ def screen(m, meta):
             problems.append("stale image views kept")
     # draw_screen brackets
     return {"reproduced": bool(problems), "input": "Pile(Text, Filler(UrwidImage(KittyImage))) drawn, then SolidFill drawn", "observed": problems}
+
+
+def overlay(m, meta):
+    """the real UrwidImageScreen.draw_screen() with real urwid canvases: a pop-up moves over a kitty image (the image canvas is then
+    split into several views); after every redraw the rows that carry a live kitty placement on the terminal must be exactly the
+    rows of the canvas just drawn that contain the image"""
+    import os, pty, re
+    import tests  # noqa: F401
+    import urwid
+    from PIL import Image
+    import term_image.geometry as G
+    from term_image.image import KittyImage
+    from term_image.widget import UrwidImage, UrwidImageScreen
+    tests.set_cell_size(G.Size(9, 18))
+    tests.set_terminal_name_version("kitty", "0.30.0")
+    saved = (KittyImage._supported, getattr(KittyImage, "_TERM", None), getattr(KittyImage, "_KITTY_VERSION", None))
+    KittyImage._supported = True
+    KittyImage._TERM, KittyImage._KITTY_VERSION = "kitty", (0, 30, 0)
+    problems = []
+    ptys = [pty.openpty(), pty.openpty()]
+    try:
+        scr = UrwidImageScreen(input=os.fdopen(ptys[0][1], "r", closefd=False), output=os.fdopen(ptys[1][1], "w", closefd=False))
+        chunks = []
+        scr.write = chunks.append
+        scr.flush = lambda: None
+        scr.start = lambda *a, **k: None
+        scr._started = True
+        size = (40, 20)
+        tok = re.compile(r"\x1b\[(\d*)(?:;(\d*))?([ABH])|\x1b_G([^\x1b;]*)[^\x1b]*\x1b\\|(\n)")
+        for moves in (((5, 0), (8, 0)), ((5, 0), (11, 0), (2, 0)), ((5, 15), (8, 15)), ((0, 0), (3, 0)), ((5, 30), (2, 30), (9, 30)), ((4, 0), (4, 10), (4, 30))):
+            widget = UrwidImage(KittyImage(Image.new("RGB", (200, 200), (1, 2, 3))), upscale=True)
+            scr._ti_screen_canv, scr._ti_image_cviews = None, frozenset()
+            scr.screen_buf = None          # a fresh terminal screen for every scenario
+            scr._screen_buf_canvas = None
+            live, row = {}, 0
+            for top, left in moves:
+                pop = urwid.LineBox(urwid.SolidFill("p"))
+                canv = urwid.Overlay(pop, widget, ("fixed left", left), 10, ("fixed top", top), 4).render(size)
+                n0 = len(chunks)
+                scr.draw_screen(size, canv)
+                data = "".join(chunks[n0:])
+                if data.count("\x1b[?2026h") != 1 or data.count("\x1b[?2026l") != 1:
+                    problems.append({"moves": moves, "observed": "redraw not bracketed by exactly one begin / end synchronized update"})
+                row = 0
+                for mm in tok.finditer(data):
+                    a, b, f, g, nl = mm.groups()
+                    if f == "H":
+                        row = (int(a) if a else 1) - 1
+                    elif f == "B":
+                        row += int(a) if a else 1
+                    elif f == "A":
+                        row -= int(a) if a else 1
+                    elif nl:
+                        row += 1
+                    elif g is not None:
+                        keys = dict(kv.split("=") for kv in g.split(",") if "=" in kv)
+                        if keys.get("a") == "d" and keys.get("d", "").lower() == "z":
+                            live = {r: z for r, z in live.items() if z != keys.get("z")}
+                        elif keys.get("a") == "d" and keys.get("d", "").lower() == "a":
+                            live = {}
+                        elif keys.get("a") == "T":
+                            live[row] = keys.get("z")
+                want = set()
+                for y, crow in enumerate(canv.content()):
+                    if any(b"\x1b_Ga=T" in seg[2] for seg in crow):
+                        want.add(y)
+                if set(live) != want:
+                    problems.append({"pop-up positions (top, left) drawn in turn": moves[:moves.index((top, left)) + 1],
+                                     "rows of the canvas with the image": sorted(want), "rows with a live placement on the terminal": sorted(live)})
+                    break
+            if problems:
+                break
+    finally:
+        KittyImage._supported, KittyImage._TERM, KittyImage._KITTY_VERSION = saved
+        for a_, b_ in ptys:
+            os.close(a_)
+            os.close(b_)
+    return {"reproduced": bool(problems), "input": "a pop-up moved over a kitty image widget, real draw_screen()", "observed": problems[:2]}
